@@ -43,6 +43,7 @@ type Group struct {
 	// key (or listing prefix) contains it.
 	FailReadAt  int
 	FailReadKey string
+	FailReadOp  string // when set: only calls of this kind count (has, get, getattr, getat, keys, keysprefix)
 	// Hook, when set, runs before every call, outside the group's lock (delays, rendezvous).
 	Hook   func(store, op, key string)
 	count  int
@@ -89,7 +90,7 @@ func (s *Store) alive(op, key string) error {
 	if s.g.dead {
 		return ErrCrashed
 	}
-	if s.g.FailReadKey == "" || strings.Contains(key, s.g.FailReadKey) {
+	if (s.g.FailReadKey == "" || strings.Contains(key, s.g.FailReadKey)) && (s.g.FailReadOp == "" || s.g.FailReadOp == op) {
 		s.g.reads++
 		if s.g.FailReadAt != 0 && s.g.reads == s.g.FailReadAt {
 			return ErrTransient
